@@ -88,7 +88,7 @@ def cargo_env():
     return env
 
 
-def build_runner(name, deps, features=None, lock=True):
+def build_runner(name, deps, features=None, lock=True, extra_files=None):
     """Build /verif/runners/<name>/main.rs as a release binary linked against the
     working tree's crates. deps: dict crate -> relative path under the repo.
     Returns path to the binary. Raises RuntimeError on build failure."""
@@ -99,6 +99,9 @@ def build_runner(name, deps, features=None, lock=True):
     for fn in os.listdir(src):
         if fn.endswith('.rs'):
             shutil.copy(os.path.join(src, fn), os.path.join(d, 'src', fn))
+    for fn, content in (extra_files or {}).items():
+        with open(os.path.join(d, 'src', fn), 'w') as f:
+            f.write(content)
     toml = ['[package]', 'name = "vr_%s"' % name, 'version = "0.0.0"', 'edition = "2021"', '',
             '[[bin]]', 'name = "vr_%s"' % name, 'path = "src/main.rs"', '', '[dependencies]']
     for k, v in deps.items():
